@@ -703,7 +703,11 @@ class t2listing(object):
                 if exppos > 0:
                     endpos = exppos + 3
                     next_start = endpos + 1
-                else: raise Exception("Unable to parse table line:\n" + line)
+                else:
+                    # exponent printed without 'E' (three digits), or fixed point:
+                    from re import match
+                    next_start = pstart + match('[0-9]*([-+][0-9]{3})?',
+                                                line[pstart:]).end()
             numpos.append(next_start)
         numpos.append(len(line))
         return numpos
